@@ -33,6 +33,7 @@ def main():
     ap.add_argument("--notes", default="")
     ap.add_argument("--tier", default="quick")
     ap.add_argument("--race", action="store_true", help="run the demonstration with -race")
+    ap.add_argument("--alt", action="store_true", help="run the checks against a scratch COPY of /repo (VERIF_REPO mode) instead of applying the patch to /repo itself")
     a = ap.parse_args()
     patch, demo = os.path.abspath(a.patch), os.path.abspath(a.demo)
     meta = {"seed": a.seed, "breaks_property": a.prop, "needs_to_manifest": a.needs, "ran": []}
@@ -88,30 +89,45 @@ def main():
         rc, out = sh([os.path.join(VERIF, "check"), "--list"], cwd=VERIF, env=os.environ.copy())
         checks = out.split()
     results = {}
-    rc, out = sh(["git", "-C", "/repo", "status", "--porcelain"])
-    if out.strip():
-        print("/repo is not clean; refusing")
-        return 2
-    rc, out = sh(["git", "-C", "/repo", "apply", patch])
+    altrepo = f"/tmp/seedrepo-{a.seed}"
+    cenv = dict(os.environ, VERIF_TIER=a.tier)
+    if a.alt:
+        shutil.rmtree(altrepo, ignore_errors=True)
+        shutil.copytree("/repo", altrepo, ignore=shutil.ignore_patterns(".git"))
+        rc, out = sh(["git", "apply", patch], cwd=altrepo)
+        cenv["VERIF_REPO"] = altrepo
+    else:
+        rc, out = sh(["git", "-C", "/repo", "status", "--porcelain"])
+        if out.strip():
+            print("/repo is not clean; refusing")
+            return 2
+        rc, out = sh(["git", "-C", "/repo", "apply", patch])
     if rc != 0:
         print(out)
         return 2
     try:
         for c in checks:
             t0 = time.time()
-            rc, out = sh([os.path.join(VERIF, "check"), c, "--tier", a.tier], cwd=VERIF, env=dict(os.environ, VERIF_TIER=a.tier))
+            rc, out = sh([os.path.join(VERIF, "check"), c, "--tier", a.tier], cwd=VERIF, env=cenv)
             line = next((l for l in out.splitlines() if "violated" in l), "")
             results[c] = {"rc": rc, "wall_s": round(time.time() - t0, 1), "first_message": line.strip()[:400]}
             print(f"  {c}: rc={rc} {line.strip()[:160]}")
     finally:
-        sh(["git", "-C", "/repo", "checkout", "--", "."])
-        shutil.rmtree(os.path.join(VERIF, "replays"), ignore_errors=True)
-        # evidence files were rewritten by runs against a modified tree: restore them
-        sh(["git", "-C", VERIF, "checkout", "--", "evidence"])
+        if a.alt:
+            shutil.rmtree(altrepo, ignore_errors=True)
+            import glob as _g
+            for pth in _g.glob(os.path.join(VERIF, "work", "alt-*" + a.seed.replace("-", "_"))):
+                shutil.rmtree(pth, ignore_errors=True)
+        else:
+            sh(["git", "-C", "/repo", "checkout", "--", "."])
+            shutil.rmtree(os.path.join(VERIF, "replays"), ignore_errors=True)
+            # evidence files were rewritten by runs against a modified tree: restore them
+            sh(["git", "-C", VERIF, "checkout", "--", "evidence"])
     caught = sorted(c for c, r in results.items() if r["rc"] == 1)
     meta["checks_run"] = results
     meta["caught_by"] = caught
     meta["tier"] = a.tier
+    meta["run_against"] = "scratch copy of /repo (VERIF_REPO)" if a.alt else "/repo itself (git apply ... git checkout)"
     meta["notes"] = a.notes
     d = os.path.join(VERIF, "seeded", a.seed)
     os.makedirs(d, exist_ok=True)
